@@ -151,6 +151,15 @@ def run(ctx):
         ("shortcut", {"schema": "{\n  @k: 1\n}", "types": [["@k", '"x" // {minLength: 1, nullable: true}']]}, None, None),
         ("shortcut", {"schema": "{\n  @k: 1\n}", "types": [["@k", '"x" // {or: [{type: "string", minLength: 1}, {type: "string", regex: "x"}]}']]}, None, None),
         ("shortcut", {"schema": "{\n  @k: 1\n}", "types": [["@k", "@k2"], ["@k2", '"x" // {minLength: 1}']]}, None, None),
+        ("shortcut", {"schema": "{\n  \"kk\": 1,\n  @K: 2\n}", "types": [["@K", '"kk" // {regex: "k+"}']]}, None, "shortcut-collision-required"),
+        ("shortcut", {"schema": "{\n  \"a\": 1,\n  @K: 2\n}", "types": [["@K", '"a" // {enum: ["a", "b"]}']]}, None, "shortcut-collision-required"),
+        ("shortcut", {"schema": "{\n  @K: 1,\n  @L: \"s\"\n}", "types": [["@K", '"a" // {enum: ["a", "b"]}'], ["@L", '"a" // {enum: ["a", "c"]}']]}, None, "shortcut-collision-required"),
+        ("dictionary recursion", {"schema": "@dir", "types": [["@dir", '{\n  "name": "n",\n  "dirs": { // {optional: true}\n    @id: @dir\n  }\n}'], ["@id", '"d1" // {regex: "^d[0-9]+$"}']]}, None, "cutoff"),
+        ("dictionary recursion", {"schema": "@dir", "types": [["@dir", '{\n  "dirs": { // {optional: true}\n    @id: @dir\n  }\n}'], ["@id", '"d1" // {minLength: 1}']]}, None, "cutoff"),
+        ("two dictionaries", {"schema": '{\n  "users": {\n    @id: 1\n  },\n  "groups": {\n    @id: "g"\n  }\n}', "types": [["@id", '"k1" // {regex: "^k"}']]}, None, None),
+        ("two dictionaries", {"schema": '{\n  "a": {\n    @id: 1\n  },\n  "b": {\n    "inner": {\n      @id: 2\n    }\n  }\n}', "types": [["@id", '"k1" // {minLength: 2}']]}, None, None),
+        ("minItems at the recursion limit", {"schema": "@T", "types": [["@T", '{\n  "kids": [ // {optional: true, minItems: 1}\n    @T\n  ]\n}']]}, None, "cutoff"),
+        ("minItems at the recursion limit", {"schema": "@L", "types": [["@L", '[ // {minItems: 2}\n  1,\n  @L // {nullable: true}\n]']]}, None, "cutoff"),
         ("or on an empty container", {"schema": '[] // {or: [{type: "array"}, {type: "string"}]}'}, None, None),
         ("or on an empty container", {"schema": '{} // {or: [{type: "object"}, {type: "string"}]}'}, None, None),
         ("or on an empty container", {"schema": '{\n  "k": [] // {or: [{type: "array"}, {type: "string"}]}\n}'}, None, None),
